@@ -14,4 +14,16 @@ namespace Romea.Hidden.C06
 theorem hidden_state_as_recorded : Romea.Generated.C06.hiddenState = [
     "src/transform/estimation/RansacRigidTransformationModel.cpp: RansacRigidTransformationModel<PointType>::getMinimalNumberOfInliers: static size_t minimalNumberOfInliers = 2 * getNumberOfPointsToDrawModel()"] := by rfl
 
+/-- The names (not only the types) of what every translated function reads, carries through its loops and returns are those
+    the bridge theorems were written against: a function that now reads or writes ANOTHER member of the same type keeps its Lean
+    type, and a positional application in a bridge would keep checking. -/
+theorem signatures_as_recorded : Romea.Generated.C06.signatures = [
+    "RansacIterations.RansacIterations (fittingProbability maximalNumberOfIterations numberOfPoints) result: logOfFittingOppositeProbability_', numberOfIterations_', oneOverNumberOfPoints_'",
+    "EPSILON (Limits.eps)",
+    "RansacIterations.update (logOfFittingOppositeProbability_ numberOfInliers numberOfIterations_ numberOfPointsToDrawModel oneOverNumberOfPoints_) result: numberOfIterations_'",
+    "RansacIterations.get (numberOfIterations_) result: ret",
+    "MAXIMAL_NUMBER_OF_ITERATIONS ()",
+    "Ransac.estimateModel.loop1 (countInliers draw modelErrorDeviation_ numberOfPointsToDrawModel ransacIterations_logOfFittingOppositeProbability_ ransacIterations_oneOverNumberOfPoints_) carried: bestNumberOfInliers, iteration, ransacIterations_numberOfIterations_, ransacModel_",
+    "Ransac.estimateModel (fuel countInliers draw fittingProbability_ getMinimalNumberOfInliers getNumberOfPoints getNumberOfPointsToDrawModel modelErrorDeviation_ ransacModel_ refine) result: ret, ransacModel_' (none = fuel exhausted)"] := by rfl
+
 end Romea.Hidden.C06
